@@ -1009,7 +1009,8 @@ void QXmppTransferManager::ibbDataIqReceived(const QXmppIbbDataIq &iq)
         return;
     }
 
-    if (iq.sequence() != job->d->ibbSequence) {
+    // the sequence number on the wire is a 16-bit counter that wraps around
+    if (iq.sequence() != quint16(job->d->ibbSequence)) {
         // the packet is out of sequence
         QXmppStanza::Error error(QXmppStanza::Error::Cancel, QXmppStanza::Error::UnexpectedRequest);
         response.setType(QXmppIq::Error);
